@@ -30,6 +30,8 @@ def data_strategy(draw, max_points=24):
     per = draw(st.integers(max(1, -(-3 // nt)), max(2, max_points // nt)))
     kind = draw(st.sampled_from(["truth", "truth", "arbitrary"]))
     tr = draw(procs.truth())[0]
+    # overall magnitude of the permeances: kg/(m2 h kPa)-like, or raw SI-like numbers (1e-6..1e-8 of that)
+    scale = draw(st.sampled_from([1.0, 1.0, 1e-3, 1e-6, 1e-8]))
     pts = []
     for t in temps:
         for _ in range(per):
@@ -38,7 +40,7 @@ def data_strategy(draw, max_points=24):
                 p = procs.truth_value(tr, x, t) * (1.0 + draw(gen.uniform(-0.03, 0.03)))
             else:
                 p = draw(gen.loguniform(1e-4, 1.0))
-            pts.append([x, t, p])
+            pts.append([x, t, p * scale])
     return {"points": pts}
 
 
